@@ -337,6 +337,36 @@ def extra(ctx, uberjob):
                              % (workers, defect or "well-formed", outcome, completed, len(shape)),
                              {"shape": name, "max_workers": workers, "decisions": r.sched.decisions[:4000] if r else None,
                               "notifications": [repr(e) for e in seq[:80]]})
+    # (a') the same plans on the engine's real threads with a tiny interpreter switch interval (no instrumentation at all)
+    import sys as _sys
+    old_si = _sys.getswitchinterval()
+    _sys.setswitchinterval(1e-6)
+    try:
+        for si in range(ctx.n(160, 1500)):
+            name = rng.choice(sorted(plansched.SHAPES))
+            shape = plansched.SHAPES[name] if si % 3 else [("c0", [])] + [("c%d" % k, ["c%d" % (k - 1)]) for k in range(1, 6)]
+            plan, nodes = uberjob.Plan(), {}
+            for nm, args in shape:
+                with plan.scope(nm[0]):
+                    nodes[nm] = plan.call(lambda *a: 7, *[nodes[a] for a in args])
+            prog = RecProgress()
+            workers = rng.choice([1, 2, 4, 8])
+            try:
+                res = core.call_watched(lambda: uberjob.run(plan, output=nodes[shape[-1][0]], max_workers=workers, progress=prog, scheduler=rng.choice([None, "random"])), timeout=30)
+                outcome = "returned" if res == 7 else "returned %r instead of 7" % (res,)
+            except BaseException as e:      # noqa
+                outcome = "raised %s: %s" % (type(e).__name__, str(e)[:100])
+            seq = prog.made[0].seq if prog.made else []
+            defect = py_wf(seq)
+            completed = sum(1 for e in seq if e[0] == "completed")
+            ctx.case(("c15-real-threads", name if si % 3 else "chain6", workers, si), nontrivial=True)
+            if defect or outcome != "returned" or completed != len(shape):
+                ctx.fail("timing:account", "on real threads (switch interval 1 us, %d workers) the observer's account is not exact: %s; run %s; %d completed of %d calls"
+                         % (workers, defect or "well-formed", outcome, completed, len(shape)),
+                         {"shape": name if si % 3 else "chain6", "max_workers": workers, "notifications": [repr(e) for e in seq[:80]]})
+                break
+    finally:
+        _sys.setswitchinterval(old_si)
     # (c) transform_physical may return a NEW plan (a copy it edited): the account describes the plan that is executed
     import operator
     for how in ("in-place", "copy-add", "copy-replace"):
